@@ -120,6 +120,11 @@ def install(rec):
             if not s["tree"]:
                 rec.count("bp", "exact_on_tree", "loopy")
                 return
+            if k.get("diis"):
+                # DIIS extrapolation is not among the options the property quantifies
+                # over (the extrapolated messages are not a BP fixed point): exercised only
+                rec.count("bp", "exact_on_tree", "out_of_domain")
+                return
             if conv is not True:
                 rec.count("bp", "exact_on_tree", "inconclusive_not_converged")
                 return
@@ -327,7 +332,8 @@ def wl_contract(rng, rec, tier):
         kw2.pop("update", None)
     r2 = gen.attempt(fn, tn, **kw2)
     if r1 is not None and r2 is not None and not kw.get("strip_exponent") \
-            and converged(info1, kw.get("tol", 5e-6)) and converged(kw2["info"], kw2.get("tol", 5e-6)):
+            and converged(info1, kw.get("tol", 5e-6)) and converged(kw2["info"], kw2.get("tol", 5e-6)) \
+            and not kw.get("diis") and not kw2.get("diis"):
         try:
             a, b = complex(np.asarray(to_numpy(r1))), complex(np.asarray(to_numpy(r2)))
             tolm = max(kw.get("tol", 5e-6), kw2.get("tol", 5e-6))
